@@ -123,6 +123,32 @@ def collect (s : State) (t : HeapId) : Option State :=
   | none => none
   | some m => some { s with obj := sweepObj s t m }
 
+/-! ### Mark bits as state
+
+`Gc::mark` answers "already marked" for an object whose mark bit is set (gc.rs:1398) and does not
+look inside it; `sweep` frees the unmarked objects of the heaps it sweeps and clears the bits of
+the survivors (gc.rs:1435-1442); the bits of objects of heaps that are NOT swept stay. `marked` is
+the set of objects whose bit is set when the collection starts. -/
+
+def markM (s : State) (t : HeapId) (marked : List Nat) : Option (List Nat) :=
+  markGo s t (markFuel s t) (rootsOf s t) marked
+
+def inSwept (s : State) (t : HeapId) (i : Nat) : Bool :=
+  match s.obj i with
+  | some o => t.isPrefixOf o.owner
+  | none => false
+
+/-- State and mark bits after a collection that starts with the bits `marked` set. -/
+def collectM (s : State) (t : HeapId) (marked : List Nat) : Option (State × List Nat) :=
+  match markM s t marked with
+  | none => none
+  | some m => some ({ s with obj := sweepObj s t m }, m.filter fun i => !inSwept s t i)
+
+def freedByM (s : State) (t : HeapId) (marked : List Nat) : Option (List Nat) :=
+  match collectM s t marked with
+  | none => none
+  | some (s', _) => some (s.ids.filter fun i => (s.obj i).isSome && (s'.obj i).isNone)
+
 /-- ids freed by a collection (what the driver prints). -/
 def freedBy (s : State) (t : HeapId) : Option (List Nat) :=
   match collect s t with
